@@ -1,5 +1,5 @@
 //! C14: file-name encoding, kerning-instance file names.
-use crate::util::*;
+use vh::*;
 use fontdrasil::coords::{NormalizedCoord, NormalizedLocation};
 use fontdrasil::paths::string_to_filename;
 use fontdrasil::types::Tag;
@@ -101,7 +101,9 @@ fn coq_loc(loc: &[(String, f64)]) -> String {
     })
 }
 
-pub fn run(args: &[String]) {
+fn main() {
+    let args: Vec<String> = std::env::args().collect();
+    let args = &args[1..];
     let seed = arg_val(args, "--seed", 1);
     let n = arg_val(args, "--n", 500) as usize;
     let mut rng = Rng::new(seed);
